@@ -458,3 +458,54 @@ Definition enums_covered (cenums : list (string * list string)) (efrom eto : lis
 
 Definition vec_conv_ok (v : string * list string) : bool :=
   andb (Nat.leb 2 (length (snd v))) (list_eqb (snd v) (firstn (length (snd v)) axes)).
+
+(* --------------------------------------------- option-struct marshalling *)
+
+(* Functions that take a pointer to a struct of optional arrays
+   (ManifoldMeshGLOptions / ManifoldMeshGL64Options).  The translator reads
+   every block `if (opt->G != nullptr) result->M = vector_of_array(opt->S, L);`
+   as (G, S, L, M).  Reviewed map: C field -> (MeshGL member, length). *)
+Definition option_field_map : list (string * (string * string)) :=
+  [ ("run_indices", ("runIndex", "run_indices_length"));
+    ("run_original_ids", ("runOriginalID", "run_original_ids_length"));
+    ("merge_from_vert", ("mergeFromVert", "merge_verts_length"));
+    ("merge_to_vert", ("mergeToVert", "merge_verts_length"));     (* one shared length for both merge vectors *)
+    ("halfedge_tangents", ("halfedgeTangent", "n_tris*3*4")) ].    (* four floats per halfedge, three halfedges per triangle *)
+
+Fixpoint ends_with_length (s : string) : bool :=
+  match s with
+  | EmptyString => false
+  | String _ r => orb (String.eqb s "_length") (ends_with_length r)
+  end.
+
+Definition opt_block_ok (b : string * string * string * string) : bool :=
+  match b with (g, src, len, dst) =>
+    andb (String.eqb g src)                                  (* the guard tests the very field that is copied *)
+         (match assoc src option_field_map with
+          | Some (m, l) => andb (String.eqb m dst) (String.eqb l len)
+          | None => false end)
+  end.
+
+Definition opt_table_ok (structs : list (string * list string))
+           (t : string * string * list (string * string * string * string)) : bool :=
+  match t with (_, st, blocks) =>
+    match assoc st structs with
+    | None => false
+    | Some fields =>
+        let srcs := map (fun b => snd (fst (fst b))) blocks in
+        let lens := map (fun b => snd (fst b)) blocks in
+        andb (forallb opt_block_ok blocks)
+        (andb (forallb (fun f => if ends_with_length f then str_in f lens          (* every length field is used *)
+                                 else Nat.eqb (count_occ_s f srcs) 1) fields)      (* every array field is copied exactly once *)
+             (nodup_s (map (fun b => snd b) blocks)))                              (* no MeshGL member is assigned twice *)
+    end
+  end.
+
+(* every function with a parameter of type `S *`, S a C struct with pointer fields, has such a table for S *)
+Definition opt_tables_cover (option_structs : list string) (tbl : list entry)
+           (ots : list (string * string * list (string * string * string * string))) : bool :=
+  forallb (fun e =>
+    forallb (fun p =>
+      forallb (fun st => if String.eqb (snd p) (st ++ " *")
+                         then existsb (fun t => andb (String.eqb (fst (fst t)) (e_name e)) (String.eqb (snd (fst t)) st)) ots
+                         else true) option_structs) (e_params e)) tbl.
